@@ -484,3 +484,38 @@ Fixpoint run (s : gst) (acts : list action) : option gst :=
   | AStep t :: r => match gstep s t with Some s' => run s' r | None => None end
   end.
 End Lane.
+
+(* ---- atomic sites on dq_state of the modelled functions, in program order, as the program points above use them;
+   compared in Proofs/CLane_main.v with the lists src2v reads from the source (Gen_lanesites, inlined callees included) ---- *)
+Definition st_site (k : akind) (o : morder) : site := {| s_kind := k; s_field := 0; s_order := o |}.
+Definition dq_sites (l : list site) : list site := filter (fun x => Nat.eqb (s_field x) 0) l.
+
+(* S_rsv *)
+Definition model_sites_try_reserve_sync_width := [st_site KLoad Relaxed; st_site KCasWeak Relaxed].
+(* A_acq / DN_acq / W_acq *)
+Definition model_sites_try_acquire_async := [st_site KLoad Relaxed; st_site KCasWeak Acquire].
+(* DN_add / W_addw *)
+Definition model_sites_reserve_sync_width := [st_site KAdd Relaxed].
+(* W_upg *)
+Definition model_sites_try_upgrade_full_width := [st_site KLoad Relaxed; st_site KCasWeak Acquire].
+(* NBC (what follows in the generated list are the inlined _dispatch_lane_barrier_complete and its callees) *)
+Definition model_sites_non_barrier_complete := [st_site KLoad Relaxed; st_site KCasWeak Relaxed].
+(* BC_class, BC_xor *)
+Definition model_sites_class_barrier_complete := [st_site KLoad Relaxed; st_site KXor Acquire; st_site KCasWeak Release].
+(* DBW_xfer (the xor belongs to the workloop branch, never taken for role BASE_ANON) *)
+Definition model_sites_drain_barrier_waiter := [st_site KLoad Relaxed; st_site KXor Acquire; st_site KCasWeak Release].
+(* DN_and; DN_loop (room test); DN_add; DN_acq; [_dispatch_non_barrier_waiter_redirect_or_wake: a load, and the reservation on
+   an inner queue's target, never taken here]; DN_fin with DN_xor *)
+Definition model_sites_drain_non_barriers :=
+  [st_site KAnd Release; st_site KLoad Relaxed; st_site KAdd Relaxed; st_site KLoad Relaxed; st_site KCasWeak Acquire;
+   st_site KLoad Relaxed; st_site KLoad Relaxed; st_site KCasWeak Relaxed;
+   st_site KLoad Relaxed; st_site KXor Acquire; st_site KCasWeak Relaxed].
+(* _dispatch_lane_drain (concurrent): W_head (first_iteration load); W_upg; W_xorib; W_addw; W_acq;
+   [_dispatch_non_barrier_waiter_redirect_or_wake as above] *)
+Definition model_sites_concurrent_drain :=
+  [st_site KLoad Relaxed; st_site KLoad Relaxed; st_site KCasWeak Acquire; st_site KXor Release; st_site KAdd Relaxed;
+   st_site KLoad Relaxed; st_site KCasWeak Acquire; st_site KLoad Relaxed; st_site KLoad Relaxed; st_site KCasWeak Relaxed].
+(* _dispatch_lane_concurrent_push: A_acq, then _dispatch_lane_push -> _dispatch_lane_wakeup -> _dispatch_queue_wakeup: A_wake *)
+Definition model_sites_concurrent_push_head := [st_site KLoad Relaxed; st_site KCasWeak Acquire].
+(* SW_rmw: _dispatch_lane_push_waiter (a load in _dispatch_lane_push_waiter_should_wakeup's sibling test, then the rmw loop) *)
+Definition model_sites_push_waiter_head := [st_site KLoad Relaxed; st_site KLoad Relaxed; st_site KCasWeak Release].
